@@ -167,6 +167,7 @@ class FormulaTransformer(m.MatcherDecoratableTransformer):
         # state variables
         self.func_level = 0
         self.attr_stack = []
+        self.keyword_stack = []
         self.topfunc_name = None
 
         self.func_attrs = {}
@@ -265,6 +266,13 @@ class FormulaTransformer(m.MatcherDecoratableTransformer):
             params=new_params
         )
 
+    def visit_Arg(self, node: "Arg") -> Optional[bool]:
+        self.keyword_stack.append(node.keyword)
+
+    def leave_Arg(self, original_node: "Arg", updated_node: "Arg") -> "Arg":
+        self.keyword_stack.pop()
+        return updated_node
+
     def visit_Attribute(self, node: "Attribute") -> Optional[bool]:
         self.attr_stack.append(node.attr)
 
@@ -282,6 +290,9 @@ class FormulaTransformer(m.MatcherDecoratableTransformer):
             return updated_node
         elif self.attr_stack and self.attr_stack[-1] == original_node:
             # Do nothing if node is an attribute of another name
+            return updated_node
+        elif self.keyword_stack and self.keyword_stack[-1] is original_node:
+            # Do nothing if node is the name of a keyword argument
             return updated_node
         elif self.should_replace(original_node):
             return cst.Attribute(value=cst.Name('self'), attr=updated_node)
